@@ -6,7 +6,8 @@ was a miss, <note> says what was strengthened."""
 import json, os, re, shutil, subprocess, sys
 pid, k, note = sys.argv[1], sys.argv[2], sys.argv[3]
 extra = sys.argv[4:]
-sd = f"/tmp/seed2_{pid}/SEED/{k}"
+RND = int(os.environ.get("ROUND", "2"))
+sd = f"/tmp/seed{RND}_{pid}/SEED/{k}"
 ev = open(os.path.join(sd, "eval.txt")).read()
 first = [l for l in ev.splitlines() if l.startswith("RESULT")][-1]
 tests = [l for l in ev.splitlines() if l.startswith("TESTS")][-1]
@@ -14,7 +15,7 @@ if not ("demo_clean=0" in first and "demo_mut=1" in first and "newly_failing=[]"
     print(pid, k, "NOT CONFIRMED:", first, tests); sys.exit(1)
 out = subprocess.run(["/verif/tools/eval_seed.sh", sd, pid] + extra, capture_output=True, text=True).stdout
 now = [l for l in out.splitlines() if l.startswith("RESULT")][-1]
-dst = f"/verif/seeded/{pid}-{int(k) + 3}"
+dst = f"/verif/seeded/{pid}-{int(k) + 3 * (RND - 1)}"
 os.makedirs(dst, exist_ok=True)
 for f in ("patch.diff", "demo.py"):
     shutil.copy(os.path.join(sd, f), os.path.join(dst, f))
@@ -26,13 +27,13 @@ fc = dict(re.findall(r"(C\d\d):rc=(\d)", first))
 nc = dict(re.findall(r"(C\d\d):rc=(\d)", now))
 if fc.get(pid) != "1":
     meta["strengthened"] = f"first verdict: {first.split('demo_mut=1')[1].strip()}; missed at first; {note}"
-meta["round"] = 2
+meta["round"] = RND
 meta["confirmed_by_me"] = {
     "demo_exit_on_unchanged_tree": 0, "demo_exit_with_change": 1, "repository_tests_with_change": tests,
-    "how": "tools/seed_eval_all.sh (SEEDROOT=/tmp/seed2_): scratch copies of /repo/PyMatterSim outside /repo and /verif, patch applied with patch -p1, "
+    "how": "tools/seed_eval_all.sh (SEEDROOT=/tmp/seed<round>_): scratch copies of /repo/PyMatterSim outside /repo and /verif, patch applied with patch -p1, "
            "demo run in both; ./check <id> --tier quick with VERIF_REPO=<changed copy>; tools/seed_tests.sh: the repository's whole test-suite on a "
            "changed copy (one pytest process per tests/<dir>), all 75 baseline-stable tests must still pass; tools/archive_seed2.py re-ran the quick checks",
     "checks": {c: ("caught (exit 1)" if rc == "1" else f"NOT caught (exit {rc})") for c, rc in nc.items()},
     "raw": now, "raw_first": first}
 json.dump(meta, open(os.path.join(dst, "meta.json"), "w"), indent=1)
-print(pid, int(k) + 3, "archived;", meta["confirmed_by_me"]["checks"], "| first:", fc)
+print(pid, int(k) + 3 * (RND - 1), "archived;", meta["confirmed_by_me"]["checks"], "| first:", fc)
